@@ -282,13 +282,21 @@ func (s *Store) LoadCheckpoint() error {
 		// Checkpoint IDs are encoded so that files will be in reverse chronological
 		// order.
 		var latestCheckpointFile string
+		var latestCheckpointID uint64
 		for filePath, err := range s.fileStore.List() {
 			if err != nil {
 				return err
 			}
 			if filepath.Ext(filePath) == ".snapshot" {
-				latestCheckpointFile = filePath
-				break
+				// The listing order of the encoded IDs doesn't follow the numeric
+				// order so compare the decoded IDs of all snapshot files.
+				id, ok := checkpointIDFromSnapshotPath(filePath)
+				if !ok {
+					continue
+				}
+				if latestCheckpointFile == "" || id > latestCheckpointID {
+					latestCheckpointFile, latestCheckpointID = filePath, id
+				}
 			}
 		}
 
